@@ -67,6 +67,22 @@ def run_case(case, step_hook=None):
             r = tag.add_class(build_attr_value(op["v"]), prepend=op.get("prepend", False))
             assert r is tag
             model.add_token_attr("class", op["v"], op.get("prepend", False))
+        elif o == "remove_class":
+            parts = model.items.get("class")
+            if parts is not None and AttrModel.is_html(parts):
+                continue  # on an HTML()-typed class value the helper works on markup (known finding F7): not driven
+            arg = build_attr_value(op["v"])
+            r = tag.remove_class(arg)
+            assert r is tag
+            tok = op["v"]["s"].strip()
+            if parts is not None and op["v"]["s"]:
+                text = AttrModel.plain_text(parts)
+                if text:
+                    toks = [t for t in text.split() if t != tok]
+                    if toks:
+                        model.items["class"] = [("plain", " ".join(toks))]
+                    else:
+                        model.pop("class")
         elif o == "add_style":
             r = tag.add_style(build_attr_value(op["v"]), prepend=op.get("prepend", False))
             assert r is tag
